@@ -28,11 +28,11 @@ type Item struct {
 	CLIErr  error
 	Elapsed time.Duration
 	// filled by LoadItem
-	Files []*ast.File
-	Types *types.Package
-	Info  *types.Info
-	SSA   *ssa.Package
-	Err   error // type-check error (compile gate)
+	Files  []*ast.File
+	Types  *types.Package
+	Info   *types.Info
+	SSA    *ssa.Package
+	Err    error             // type-check error (compile gate)
 	GenSrc map[string]string // generated file name -> text
 }
 
@@ -192,13 +192,13 @@ func (l *Loader) LoadItem(it *Item) {
 		files = append(files, f)
 	}
 	info := &types.Info{
-		Types:      map[ast.Expr]types.TypeAndValue{},
-		Defs:       map[*ast.Ident]types.Object{},
-		Uses:       map[*ast.Ident]types.Object{},
-		Implicits:  map[ast.Node]types.Object{},
-		Instances:  map[*ast.Ident]types.Instance{},
-		Scopes:     map[ast.Node]*types.Scope{},
-		Selections: map[*ast.SelectorExpr]*types.Selection{},
+		Types:        map[ast.Expr]types.TypeAndValue{},
+		Defs:         map[*ast.Ident]types.Object{},
+		Uses:         map[*ast.Ident]types.Object{},
+		Implicits:    map[ast.Node]types.Object{},
+		Instances:    map[*ast.Ident]types.Instance{},
+		Scopes:       map[ast.Node]*types.Scope{},
+		Selections:   map[*ast.SelectorExpr]*types.Selection{},
 		FileVersions: map[*ast.File]string{},
 	}
 	var errs []string
